@@ -462,6 +462,14 @@ def check_treewalk(ctx, out, rule="C03.walk"):
                     txt = render(e, 400)
                     if re.search(r"Node::kind|is_named|child_count|node_visitor|FnOnce|call_once|Fn::call", txt):
                         bad = txt
+                    else:
+                        # a flag merged from several tests (`a || b` of an inlined predicate) renders as a bare
+                        # local: decide on what it derives from
+                        sop = (b.blocks[br]["term"] or {}).get("op")
+                        gl = ctx.prov.read_operand(b, sop) if sop else set()
+                        hit = sorted({l[1].split("::")[-1] for l in gl if l[0] == "call" and re.search(r"tree_sitter::Node::<'tree>::(kind|kind_id|is_named|child_count|named_child_count|is_extra|grammar_name)$|Fn(Once|Mut)?>?::call", l[1])})
+                        if hit:
+                            bad = "a condition derived from the node's %s" % "/".join(hit)
                 if bad:
                     out.viol(rule, "%s|%s|conditional-descent" % (rule, b0.id), ctx.where(b0, t["span"]),
                              "the tree walk descends into a node's children only under `%s`: comments nested below other nodes are never visited" % bad[:140])
